@@ -67,4 +67,10 @@ var registry = []prop{
 		Thor:   tierCfg{Shards: 16, Scale: 10, TimeoutS: 1500},
 		Assume: []string{"duplicate history entries of the predecessor version are interchangeable (any of them is accepted as the old state)", "the datasource is the library's own map-backed osm.HistoryDatasource"},
 	},
+	{
+		ID: "C15", Pkg: "props/c15", Level: "exploration",
+		Quick:  tierCfg{Shards: 1, Scale: 1, TimeoutS: 300},
+		Thor:   tierCfg{Shards: 16, Scale: 10, TimeoutS: 1500},
+		Assume: []string{"update indices are >= 0", "the geometry clause is judged only for fully annotated ways (every node and update has version >= 1 and a location other than (0,0)) with all indices in range", "composition is judged only when each child's updates appear in time order in the stored list"},
+	},
 }
